@@ -10,6 +10,8 @@
 (*             in one tuple)                                                                        *)
 (*   toO       frames holder -> owner: DEL(k, c) release notice, PB(k) a request that passes the    *)
 (*             proxy back (boxed as a local reference), REQ(k) a request whose reply will carry k   *)
+(*             (c = 1: the holder has stopped waiting for it - its result expired - before the     *)
+(*             reply comes; the reply, OREF(k), still carries the reference and is still unboxed)  *)
 (* Reply frames that carry no reference are not modelled (they change nothing here).                *)
 EXTENDS Integers, Sequences, FiniteSets, TLC
 
@@ -50,14 +52,26 @@ Request(k) == /\ ~closed /\ boxed[k] < MaxBox /\ Len(toO) < MaxQ
               /\ boxed' = [boxed EXCEPT ![k] = @ + 1]       \* counted when asked, so the bound is static
               /\ UNCHANGED <<tab, proxy, toH, err, closed>>
 
+\* ... and gives up at once (asynchronous request whose result expires before the reply arrives): the late reply is discarded
+\* by AsyncResult.__call__, but only after _dispatch has unboxed it
+RequestAbandoned(k) == /\ ~closed /\ boxed[k] < MaxBox /\ Len(toO) < MaxQ
+                       /\ toO' = Append(toO, [type |-> "REQ", k |-> k, c |-> 1])
+                       /\ boxed' = [boxed EXCEPT ![k] = @ + 1]
+                       /\ UNCHANGED <<tab, proxy, toH, err, closed>>
+
 \* _unbox of a remote reference: a live cached proxy is reused and its count bumped, otherwise a new proxy
 Recv(p, k) == [p EXCEPT ![k] = @ + 1]
 
 DeliverToHolder == /\ ~closed /\ toH # <<>>
                    /\ LET m == Head(toH) IN
-                        proxy' = IF m.type = "PAIR" THEN Recv(Recv(proxy, m.k), m.k) ELSE Recv(proxy, m.k)
+                        IF m.type = "OREF" /\ proxy[m.k] = 0
+                        THEN \* nobody takes the result: the fresh proxy is garbage at once and its finalizer returns the reference
+                             /\ toO' = Append(toO, [type |-> "DEL", k |-> m.k, c |-> 1])
+                             /\ UNCHANGED proxy
+                        ELSE /\ proxy' = IF m.type = "PAIR" THEN Recv(Recv(proxy, m.k), m.k) ELSE Recv(proxy, m.k)
+                             /\ UNCHANGED toO
                    /\ toH' = Tail(toH)
-                   /\ UNCHANGED <<tab, toO, boxed, err, closed>>
+                   /\ UNCHANGED <<tab, boxed, err, closed>>
 
 \* the program drops its last handle on the proxy: the finalizer sends the whole count back
 DropProxy(k) == /\ ~closed /\ proxy[k] > 0 /\ Len(toO) < MaxQ
@@ -84,7 +98,7 @@ DeliverToOwner ==
                 /\ UNCHANGED <<tab, toH>>
            [] m.type = "REQ" ->
                 /\ tab' = Add(tab, m.k)
-                /\ toH' = Append(toH, [type |-> "REF", k |-> m.k])
+                /\ toH' = Append(toH, [type |-> IF m.c = 1 THEN "OREF" ELSE "REF", k |-> m.k])
                 /\ UNCHANGED err
     /\ toO' = Tail(toO)
     /\ UNCHANGED <<proxy, boxed, closed>>
@@ -97,7 +111,7 @@ Close == /\ ~closed
          /\ toH' = <<>> /\ toO' = <<>>
          /\ UNCHANGED <<boxed, err>>
 
-Next == \/ \E k \in K : Send(k) \/ SendPair(k) \/ Request(k) \/ DropProxy(k) \/ PassBack(k)
+Next == \/ \E k \in K : Send(k) \/ SendPair(k) \/ Request(k) \/ RequestAbandoned(k) \/ DropProxy(k) \/ PassBack(k)
         \/ DeliverToHolder \/ DeliverToOwner \/ Close
         \/ (closed /\ UNCHANGED vars)
 Spec == Init /\ [][Next]_vars
